@@ -43,6 +43,17 @@ var (
 	c02CaseSeq  atomic.Int64
 )
 
+// c02Off: oracles switched off through VERIF_C02_DISABLE=o2a,o2b,o3,o4 (sensitivity experiments only: shows which
+// oracle catches a planted defect; never set by the driver).
+func c02Off(o string) bool {
+	for _, x := range strings.Split(os.Getenv("VERIF_C02_DISABLE"), ",") {
+		if x == o {
+			return true
+		}
+	}
+	return false
+}
+
 func c02Accounts(t *testing.T) ([]account.Participation, map[basics.Address]basics.AccountData) {
 	c02AcctOnce.Do(func() {
 		seed := [32]byte{0xc0, 0x02}
@@ -185,7 +196,7 @@ func c02Val(v proposalValue) string {
 type c02Node struct {
 	w        *c02World
 	idx      int
-	addr     basics.Address
+	addrs    []basics.Address // participation accounts held by this node (1, sometimes 2)
 	ledger   *c02Ledger
 	accessor db.Accessor
 	keys     KeyManager
@@ -238,6 +249,15 @@ type c02Inc struct {
 	newOwnVotes  int
 	cutReq       *c02CutReq
 	diskHeld     bool // a disk hold was active at some time during this incarnation
+}
+
+func (n *c02Node) owns(a basics.Address) bool {
+	for _, x := range n.addrs {
+		if x == a {
+			return true
+		}
+	}
+	return false
 }
 
 // coserviceListener
@@ -444,7 +464,7 @@ func (w *c02World) emit(inc *c02Inc, tag protocol.Tag, data []byte, exclude int)
 
 	// Is this a direct own attest vote (step >= soft) leaving the node that holds the key?
 	var own *c02SeenVote
-	if tag == protocol.AgreementVoteTag && len(votes) == 1 && votes[0].key.Sender == n.addr && votes[0].key.Step != propose {
+	if tag == protocol.AgreementVoteTag && len(votes) == 1 && n.owns(votes[0].key.Sender) && votes[0].key.Step != propose {
 		own = &votes[0]
 	}
 
@@ -505,7 +525,7 @@ func (w *c02World) emit(inc *c02Inc, tag protocol.Tag, data []byte, exclude int)
 		if dpos.readable {
 			w.st.dReads++
 			bad := !dpos.present || !dpos.decodeOK || dpos.Round < k.Round || (dpos.Round == k.Round && dpos.Period < k.Period)
-			if bad {
+			if bad && !c02Off("o2a") {
 				s := fmt.Sprintf("UNPERSISTED VOTE: n%d.%d released own vote (r%d p%d s%d %s) while the crash DB holds %v", n.idx, inc.id, k.Round, k.Period, k.Step, c02Val(own.val), dpos)
 				w.viol = append(w.viol, s)
 				w.hist = append(w.hist, fmt.Sprintf("%04d VIOLATION %s", len(w.hist), s))
@@ -517,7 +537,7 @@ func (w *c02World) emit(inc *c02Inc, tag protocol.Tag, data []byte, exclude int)
 		// oracle 3: while persistence is gated (hold established at true quiescence), no *new* own attest vote is released
 		if n.holdActive {
 			w.st.holdNewVoteChecks++
-			if isNew {
+			if isNew && !c02Off("o3") {
 				s := fmt.Sprintf("VOTE RELEASED WHILE PERSISTENCE IS BLOCKED (%s): n%d.%d released new own vote (r%d p%d s%d %s); crash DB %v", n.holdKind, n.idx, inc.id, k.Round, k.Period, k.Step, c02Val(own.val), dpos)
 				w.viol = append(w.viol, s)
 				w.hist = append(w.hist, fmt.Sprintf("%04d VIOLATION %s", len(w.hist), s))
@@ -573,13 +593,13 @@ func (w *c02World) noteDLocked(n *c02Node, d c02DPos, where string) {
 		case last.decodeOK && (d.Round < last.Round || (d.Round == last.Round && d.Period < last.Period)):
 			regress = true
 		}
-		if regress {
+		if regress && !c02Off("o2b") {
 			s := fmt.Sprintf("CRASH STATE REGRESSED: n%d crash DB went from %v (at %s) to %v (at %s)", n.idx, last, n.lastDWhere, d, where)
 			w.viol = append(w.viol, s)
 			w.hist = append(w.hist, fmt.Sprintf("%04d VIOLATION %s", len(w.hist), s))
 		}
 	}
-	if d.present && !d.decodeOK {
+	if d.present && !d.decodeOK && !c02Off("o2b") {
 		s := fmt.Sprintf("CRASH STATE UNDECODABLE: n%d (at %s)", n.idx, where)
 		w.viol = append(w.viol, s)
 	}
@@ -836,7 +856,7 @@ func (n *c02Node) diskHoldOff() {
 // ---------------------------------------------------------------------------------------------------------------
 // lifecycle
 
-func c02NewWorld(t *testing.T, nRun, nSilent int) *c02World {
+func c02NewWorld(t *testing.T, nRun, nSilent int, extraKey bool) *c02World {
 	accts, bals := c02Accounts(t)
 	w := &c02World{addrNode: make(map[basics.Address]int), votes: make(map[c02VoteKey]*c02VoteRec), nAccts: nRun + nSilent}
 	w.st.crashes = make(map[string]int)
@@ -866,17 +886,24 @@ func c02NewWorld(t *testing.T, nRun, nSilent int) *c02World {
 			t.Fatalf("c02: MakeAccessor: %v", err)
 		}
 		acc.SetLogger(lg)
+		parts := []account.Participation{accts[i]}
+		if i == 0 && extraKey && nSilent > 0 {
+			// node 0 also holds the last (otherwise silent) account: two participation keys in one node
+			parts = append(parts, accts[w.nAccts-1])
+		}
 		n := &c02Node{
 			w:        w,
 			idx:      i,
-			addr:     accts[i].Parent,
 			ledger:   &c02Ledger{testLedger: makeTestLedger(state).(*testLedger)},
 			accessor: acc,
-			keys:     makeRecordingKeyManager(accts[i : i+1]),
+			keys:     makeRecordingKeyManager(parts),
 			seenOwn:  make(map[c02VoteKey]bool),
 		}
+		for _, p := range parts {
+			n.addrs = append(n.addrs, p.Parent)
+			w.addrNode[p.Parent] = i
+		}
 		w.nodes = append(w.nodes, n)
-		w.addrNode[n.addr] = i
 	}
 	return w
 }
